@@ -1,6 +1,6 @@
 SPECIFICATION Spec
 CONSTANTS
-  Fuel = 4
+  Fuel = 5
   MaxStmt = 3
   MaxTok = 60
   Imports = TRUE
